@@ -6,6 +6,7 @@ raise, return), so direct, indirect and recursive calls, repeated siblings and
 re-entry after return / after a caught raise all come out of the tape.
 """
 
+from .. import msel
 from ..engine1 import Engine
 from .common import gen_faults, gen_tape
 
@@ -59,10 +60,24 @@ def gen_selector(rng, total=False, quarantine=()):
                     break
                 g = rng.choice(cands)
                 sv = rng.choice(local_vars(g))
-                sibs.append({"fn": g, "caps": [{"var": sv, "as": f"{sv}{j}s{len(sibs)}"}]})
+                sb = {"fn": g, "caps": [{"var": sv, "as": f"{sv}{j}s{len(sibs)}"}], "sibs": []}
+                if rng.random() < 0.35:
+                    # a sibling that itself names a nested call: f(g(b, h(c))) > k > x
+                    h = rng.choice([x for x in FNS if x != g])
+                    hv = rng.choice(local_vars(h))
+                    if rng.random() < 0.3:
+                        sb["caps"] = []
+                    sb["sibs"].append({"fn": h, "caps": [{"var": hv, "as": f"{hv}{j}s{len(sibs)}n"}], "sibs": []})
+                sibs.append(sb)
         levels.append({"fn": f, "caps": caps, "sibs": sibs})
         if fvar is not None:
             focus = {"var": fvar, "as": "foc" if fvar.startswith("#") else f"{fvar}f"}
+    if focus is not None:
+        # a nested sibling capturing the very binding that is the focus: whether the event for
+        # that binding already carries the sibling's copy of it is not specified -> not generated
+        for lv in levels:
+            for sb in lv["sibs"]:
+                sb["sibs"] = [n for n in sb["sibs"] if (n["fn"], n["caps"][0]["var"]) != (chain[-1], focus["var"])]
     sel = {"levels": levels, "focus": focus}
     if total:
         sel["mode"] = "total"
@@ -107,7 +122,7 @@ def gen(rng, tier, quarantine=(), total=False, inv="C03.embeddings"):
         sel = gen_selector(rng, total=total, quarantine=quarantine)
         for lv in sel["levels"]:
             favoured.add(lv["fn"])
-            for sb in lv["sibs"]:
+            for sb in msel.walk_sibs(lv):
                 favoured.add(sb["fn"])
         first = first or sel["levels"][0]["fn"]
         op = {"op": "mk", "id": f"p{i}", "sels": [sel], "style": rng.randrange(2), "inv": inv}
